@@ -293,7 +293,7 @@ theorem addChar_safe (b : WB) (m : WS) (mt wt : Tag) (cur : Bool) (c : Ch) (hi :
     Safe b.overflow (b.addChar m mt wt cur c) := by
   unfold WB.addChar
   simp only
-  generalize hr : (if (c.ws && decide (b.wordlen > 0)) = true then b.flushWord m else Except.ok b) = r
+  generalize hr : (if (c.ws && !b.word.noContent) = true then b.flushWord m else Except.ok b) = r
   have hsafe : Safe b.overflow r := by
     rw [← hr]; split
     · exact flushWord_safe b m hi (Or.inl hw)
